@@ -14,7 +14,7 @@
 (* harness's derivation of b from a is not trusted.  Both segments are     *)
 (* separately validated against the ledger rules by Trace_Ledger.          *)
 (***************************************************************************)
-EXTENDS Ledger, Tx, Json, IOUtils
+EXTENDS Ledger, Tx, Dates, Json, IOUtils
 
 Pairs == ndJsonDeserialize(IOEnv.TRACE)
 VARIABLES l, tally
@@ -175,8 +175,53 @@ JudgeAggSum(p) ==
   Chk(RClose(V(W.agg.total), RSumIdx(DOMAIN p.parts, LAMBDA k : V(p.parts[k].agg.total)), Eps),
       p.cls, "aggregate total is not the sum of the parts' own totals", OkV))))
 
+(* ---- summary: the full history against (summary rows + rows settling after the date) ---- *)
+\* (a split for all affiliates is reported once per affiliate that has rows; an affiliate that holds
+\* nothing and has been summarised away gets no copy - such no-op copies are left out of the comparison)
+NoOpSplit(x) == x.act = "Split" /\ RIsZero(D(x.sh)) /\ RIsZero(D(x.preSh))
+TailD(ds, cut) == SelectSeq(ds, LAMBDA x : x.sd > cut /\ ~NoOpSplit(x))
+HeadD(ds, cut) == SelectSeq(ds, LAMBDA x : x.sd <= cut)
+AfsIn(ds) == { ds[n].af : n \in DOMAIN ds }
+LastFor(ds, af) == ds[CHOOSE n \in DOMAIN ds : ds[n].af = af /\ \A m \in DOMAIN ds : ds[m].af = af => m <= n]
+GainSum(ds, af, y) ==
+  LET T == { n \in DOMAIN ds : ds[n].af = af /\ ds[n].hasGain /\ YearOf(ds[n].sd) = y }
+      RECURSIVE go(_)
+      go(U) == IF U = {} THEN RZero ELSE LET x == CHOOSE x \in U : TRUE IN RAdd(D(ds[x].gain), go(U \ {x}))
+  IN go(T)
+\* recorded, unrepaired defect (known_findings.json): in annual mode the synthetic sale that carries a
+\* loss year is dated Jan 1 and can itself be made superficial by a purchase after the summary date
+AnnualSyntheticSfl(p) ==
+  p.annual /\ \E n \in DOMAIN p.b.deltas :
+     LET x == p.b.deltas[n] IN
+     x.sd <= p.cut /\ x.act = "Sell" /\ x.hasSfl /\ x.sd = x.td /\ x.sd = FirstDayOfYear(YearOf(x.sd))
+Tag(p) == IF AnnualSyntheticSfl(p) THEN "[annual-synthetic-loss-superficial] " ELSE ""
+JudgeSummary(p) ==
+  LET a == p.a  b == p.b
+      ta == TailD(a.deltas, p.cut)
+      tb == TailD(b.deltas, p.cut)
+      k == FirstBad(IF Len(ta) < Len(tb) THEN Len(ta) ELSE Len(tb), LAMBDA n : SameAt(ta, tb, n, ROne))
+      afs == AfsIn(a.deltas)
+      holdBad == { af \in afs :
+                    LET x == LastFor(a.deltas, af) IN
+                    IF af \in AfsIn(b.deltas)
+                    THEN LET y == LastFor(b.deltas, af) IN
+                         ~(RClose(D(x.sh), D(y.sh), Eps) /\ x.hasAcb = y.hasAcb /\ RClose(D(x.acb), D(y.acb), Eps2))
+                    ELSE ~(RIsZero(D(x.sh)) /\ RClose(D(x.acb), RZero, Eps2)) }
+      years == { YearOf(a.deltas[n].sd) : n \in { n \in DOMAIN a.deltas : a.deltas[n].sd <= p.cut } }
+      yearBad == { <<af, y>> \in afs \X years :
+                    ~RClose(GainSum(HeadD(a.deltas, p.cut), af, y), GainSum(HeadD(b.deltas, p.cut), af, y), RMul(Eps2, RN(Len(a.deltas) + 1))) }
+  IN
+  Chk(a.status = "ok", "harness", "the full history was rejected",
+  Chk(b.status = "ok", "summary", Tag(p) \o "the summary CSV followed by the later rows ended " \o b.status \o ": " \o b.msg,
+  Chk(Len(ta) = Len(tb), "summary", Tag(p) \o "different number of transactions reported after the summary date",
+  Chk(k = 0, "summary", Tag(p) \o "a row settling after the summary date is reported differently: " \o DescribeDelta(ta[IF k = 0 THEN 1 ELSE k]),
+  Chk(holdBad = {}, "summary", Tag(p) \o "final holdings differ for " \o (IF holdBad = {} THEN "" ELSE CHOOSE af \in holdBad : TRUE),
+  Chk(~p.annual \/ yearBad = {}, "summary", Tag(p) \o "a past year's net capital gain is not reproduced by the summary rows",
+  OkV))))))
+
 Judge(p) ==
   CASE p.kind = "same" -> JudgeSame(p)
+    [] p.kind = "summary" -> JudgeSummary(p)
     [] p.kind = "aggsum" -> JudgeAggSum(p)
     [] p.kind = "opening" -> JudgeOpening(p)
     [] p.kind = "split" -> JudgeSplit(p)
